@@ -15,6 +15,22 @@ use walrus::{ConstExpr, ElementItems, ElementKind, FunctionBuilder, FunctionId, 
 pub struct EditState {
     pub built: Vec<FunctionId>,
     pub counter: u32,
+    /// signatures of the function types the module had when it was parsed (a later GC may have collected
+    /// some of them: building a function with such a signature asks the type set for it AGAIN)
+    pub seen_sigs: Vec<(Vec<ValType>, Vec<ValType>)>,
+}
+
+impl EditState {
+    pub fn for_module(m: &Module) -> EditState {
+        let mut seen_sigs: Vec<(Vec<ValType>, Vec<ValType>)> = Vec::new();
+        for t in m.types.iter() {
+            let s = (t.params().to_vec(), t.results().to_vec());
+            if s.0.len() <= 6 && s.1.len() <= 4 && !seen_sigs.contains(&s) {
+                seen_sigs.push(s);
+            }
+        }
+        EditState { built: Vec::new(), counter: 0, seen_sigs }
+    }
 }
 
 const SIGS: &[(&[ValType], &[ValType])] = &[
@@ -465,8 +481,18 @@ fn positional_body(
     });
 }
 
-fn build_function(m: &mut Module, seed: u64, sig: u32, kind: &BodyKind) -> FunctionId {
-    let (params, results) = SIGS[sig as usize % SIGS.len()];
+fn build_function(m: &mut Module, st: &EditState, seed: u64, sig: u32, kind: &BodyKind) -> FunctionId {
+    // half of the signatures come from the fixed pool, half from the types the parsed module had
+    let from_module = sig & 1 == 1 && !st.seen_sigs.is_empty();
+    let (pv, rv);
+    let (params, results): (&[ValType], &[ValType]) = if from_module {
+        let s = &st.seen_sigs[(sig >> 1) as usize % st.seen_sigs.len()];
+        pv = s.0.clone();
+        rv = s.1.clone();
+        (&pv, &rv)
+    } else {
+        SIGS[(sig >> 1) as usize % SIGS.len()]
+    };
     let w = world(m);
     let mut rng = Rng::new(seed);
     let args: Vec<LocalId> = params.iter().map(|t| m.locals.add(*t)).collect();
@@ -545,7 +571,7 @@ pub fn apply(m: &mut Module, st: &mut EditState, e: &Edit) -> (bool, String) {
             (true, String::new())
         }
         Edit::BuildFunc { seed, sig, kind, export, in_elem, in_global } => {
-            let f = build_function(m, *seed, *sig, kind);
+            let f = build_function(m, st, *seed, *sig, kind);
             st.built.push(f);
             if *export {
                 let name = unique_export_name(m, st, "built");
@@ -711,7 +737,7 @@ pub fn apply(m: &mut Module, st: &mut EditState, e: &Edit) -> (bool, String) {
             (r.is_ok(), r.err().map(|e| e.to_string()).unwrap_or_default())
         }
         Edit::SetStart { seed } => {
-            let f = build_function(m, *seed, 0, &BodyKind::Arith);
+            let f = build_function(m, st, *seed, 0, &BodyKind::Arith);
             st.built.push(f);
             m.start = Some(f);
             (true, String::new())
@@ -781,6 +807,56 @@ pub fn apply(m: &mut Module, st: &mut EditState, e: &Edit) -> (bool, String) {
             } else {
                 s.instr_at(at, ir::Unreachable {});
             }
+            (true, String::new())
+        }
+        Edit::InsertViaBlockMut { func, seq, pos, n } => {
+            let locals: Vec<FunctionId> = m.funcs.iter_local().map(|(id, _)| id).collect();
+            if locals.is_empty() {
+                return (false, "no local function".into());
+            }
+            let fid = locals[*func as usize % locals.len()];
+            let lf = m.funcs.get(fid).kind.unwrap_local();
+            let mut c = SeqCollector { seqs: vec![] };
+            ir::dfs_in_order(&mut c, lf, lf.entry_block());
+            if c.seqs.is_empty() {
+                return (false, "no sequence".into());
+            }
+            let (sid, len) = c.seqs[*seq as usize % c.seqs.len()];
+            let at = *pos as usize % (len + 1);
+            let block = m.funcs.get_mut(fid).kind.unwrap_local_mut().block_mut(sid);
+            for k in 0..(*n).clamp(1, 12) {
+                block.instrs.insert(at, (ir::Instr::Drop(ir::Drop {}), Default::default()));
+                block.instrs.insert(at, (ir::Instr::Const(ir::Const { value: Value::I32(k as i32) }), Default::default()));
+            }
+            (true, String::new())
+        }
+        Edit::VisitMutPass { func, what } => {
+            let locals: Vec<FunctionId> = m.funcs.iter_local().map(|(id, _)| id).collect();
+            if locals.is_empty() {
+                return (false, "no local function".into());
+            }
+            let fid = locals[*func as usize % locals.len()];
+            struct Pass {
+                what: u8,
+            }
+            impl ir::VisitorMut for Pass {
+                fn start_instr_seq_mut(&mut self, seq: &mut ir::InstrSeq) {
+                    if self.what == 0 {
+                        seq.instrs.push((ir::Instr::Const(ir::Const { value: Value::I32(0) }), Default::default()));
+                        seq.instrs.push((ir::Instr::Drop(ir::Drop {}), Default::default()));
+                    }
+                }
+                fn visit_const_mut(&mut self, c: &mut ir::Const) {
+                    if self.what != 0 {
+                        if let Value::I32(v) = c.value {
+                            c.value = Value::I32(v ^ 1);
+                        }
+                    }
+                }
+            }
+            let lf = m.funcs.get_mut(fid).kind.unwrap_local_mut();
+            let entry = lf.entry_block();
+            ir::dfs_pre_order_mut(&mut Pass { what: *what % 2 }, lf, entry);
             (true, String::new())
         }
         Edit::RenameFunc { pick, name } => {
